@@ -163,7 +163,7 @@ fn comp_wat(c: &Comp) -> String {
     s
 }
 
-type Pkgs = Vec<(String, Option<semver::Version>, Vec<u8>)>;
+pub type Pkgs = Vec<(String, Option<semver::Version>, Vec<u8>)>;
 
 fn wit_packages() -> &'static Pkgs {
     static P: std::sync::OnceLock<Pkgs> = std::sync::OnceLock::new();
@@ -1384,4 +1384,26 @@ pub fn run(tier: Tier, seed: u64, replay: Option<&std::path::Path>) -> i32 {
         run.floor(l, 10);
     }
     run.finish()
+}
+
+
+/// The document and the packages of a case (used by C16 to observe resolvable programs).
+pub fn document_and_packages(c: &Case) -> (String, Pkgs) {
+    let comps = build_comps(&c.comps);
+    let mut g = Gen { comps: &comps, src: Src { c: &c.choices, i: 0 }, env: vec![] };
+    let mut prog = g.program();
+    if c.fault % 12 != 0 {
+        inject(&mut prog, c.fault, c.fault_at);
+    }
+    let mut pkgs: Pkgs = wit_packages().clone();
+    for comp in &comps {
+        if let Ok(b) = wat::parse_str(comp_wat(comp)) {
+            pkgs.push((comp.name.clone(), None, b));
+        }
+    }
+    (render(&prog), pkgs)
+}
+
+pub fn case_strategy() -> impl Strategy<Value = Case> {
+    (proptest::collection::vec(compspec_strategy(), 1..5), proptest::collection::vec(any::<u16>(), 4..90)).prop_map(|(comps, choices)| Case { comps, choices, fault: 0, fault_at: 0 })
 }
